@@ -123,9 +123,22 @@ def with_defaults(rng, ms: MapSpec) -> MapSpec:
         group.append(a)
         if rng.random() < 0.45:      # a second provider: the first defined one is the canonical URL
             group.append(replace(a, segs=(Seg(lit=tag + "x"),) + tuple(head[1:])))
-    if c > 0.5:
+    # build_only rules of the endpoint (URL generation only, e.g. for files a front server delivers): they are not matched and
+    # provide no defaults, with or without defaults of their own; no alias in such a group (the alias redirect is a build
+    # and may legitimately settle on a build_only rule)
+    bo_group = rng.random() < 0.3
+    if bo_group:
+        head = (Seg(lit="bo" + tag), *[s_ for s_ in mid if s_.lit is None])
+        bo = replace(b, segs=head, branch=rng.random() < 0.5, defaults=(("page", dv),), build_only=True, methods=None)
+        if rng.random() < 0.5 and len(group) > 1:
+            group.insert(1, bo)          # in front of the real provider
+        else:
+            group.append(bo)
+        if rng.random() < 0.5:
+            group.append(replace(b, segs=(Seg(lit="bo2" + tag),) + b.segs, build_only=True))
+    if c > 0.5 and not bo_group:
         group.append(replace(b, segs=(Seg(lit="old" + tag),) + b.segs, alias=True))
-    if rng.random() < 0.4:
+    if rng.random() < 0.4 and not bo_group:
         # an alias that carries a default for the argument the canonical rule takes from the URL (more defaults than
         # the canonical rule): Rule('/users.html', defaults={'page': 1}, alias=True) next to Rule('/users/page/<int:page>')
         group.append(replace(b, segs=(Seg(lit="al" + tag + ".html"), *[s_ for s_ in mid if s_.lit is None]),
@@ -404,7 +417,7 @@ def run(chk: Check) -> None:
     nred = 0
     for ms, paths, meths, ad in cases:
         ms = replace(ms, rules=tuple(replace(r, idx=i) for i, r in enumerate(ms.rules)))
-        oracles = [RuleOracle(r, ms) for r in ms.rules]
+        oracles = [RuleOracle(r, ms) for r in ms.rules if not r.build_only]      # a build_only rule is never matched
         n = len(ms.rules)
         perms = [tuple(range(n))]
         if n <= 3 and not _has_builder(ms):
@@ -437,7 +450,12 @@ def run(chk: Check) -> None:
                     chk.case(("c12", msp.cfg(), msp.enc(), ad.enc(), path, meth), nontrivial=kind == "R" or (kind != "404" and len(path) > 1),
                              sample={"rules": [r.string() for r in msp.rules], "path": path, "adapter": ad.enc()[:40],
                                      "impl": impl[:60] if kind != "R" else "R " + uncps(impl[2:])[:60]} if kind == "R" else None)
-                    lines.append(f"match {msp.cfg()} {msp.enc()} {ad.enc()} {cps(meth)} {cps(path)}")
+                    bo = [str(r.idx) for r in msp.rules if r.build_only]
+                    if bo:
+                        chk.count("map:build_only")
+                        lines.append(f"matchbo {msp.cfg()} {msp.enc()} {ad.enc()} {cps(meth)} {cps(path)} {'|'.join(bo)}")
+                    else:
+                        lines.append(f"match {msp.cfg()} {msp.enc()} {ad.enc()} {cps(meth)} {cps(path)}")
                     expect.append(impl)
                     meta.append(("match", msp, path, meth, ad))
     chk.count("redirects", nred)
@@ -457,7 +475,7 @@ def redirect_to_campaign(chk, n_maps: int, lines, expect, meta) -> None:
         ms = gen_map(rng, nmax=3, per_rule=rng.random() < 0.5)
         if rng.random() < 0.4:
             ms = with_defaults(rng, ms)
-        ms = replace(ms, rules=tuple(replace(r, idx=i) for i, r in enumerate(ms.rules)))
+        ms = replace(ms, rules=tuple(replace(r, idx=i) for i, r in enumerate(r for r in ms.rules if not r.build_only)))
         ad = replace(gen_adapter(rng, ms), environ=False, mismatch=False, host_suffix="", upgrade=False)
         if isinstance(ad.query, tuple) or ad.query is None or isinstance(ad.query, str):
             pass
